@@ -115,6 +115,9 @@ fn v(sig: &str, msg: String) -> Violation {
 
 #[derive(Clone, Debug)]
 pub struct Ctx {
+    /// identity of the feature / rule instance (two features may share a title)
+    pub fid: usize,
+    pub rid: usize,
     pub fname: String,
     pub fkeyword: String,
     pub fpath: Option<String>,
@@ -156,6 +159,11 @@ pub fn facts(stream: &[Ev]) -> Vec<Fact> {
                     _ => continue,
                 };
                 let c = Ctx {
+                    fid: super::src_ptr(f),
+                    rid: match fe {
+                        event::Feature::Rule(r, _) => super::src_ptr(r),
+                        _ => 0,
+                    },
                     fname: f.name.clone(),
                     fkeyword: f.keyword.clone(),
                     fpath: f.path.as_deref().and_then(trim),
@@ -322,6 +330,7 @@ pub fn check_libtest(text: &str, facts: &[Fact], pf_steps_plus_errors: Option<us
     // ---- parsed
     let mut got: Vec<String> = vec![];
     let mut pending: BTreeMap<String, i64> = BTreeMap::new();
+    let mut started_count: BTreeMap<String, usize> = BTreeMap::new();
     let mut suite_started: Vec<f64> = vec![];
     let mut suite_result: Vec<&J> = vec![];
     let canon = |name: &str| -> String {
@@ -342,6 +351,7 @@ pub fn check_libtest(text: &str, facts: &[Fact], pf_steps_plus_errors: Option<us
                 let stdout = j.get("stdout").and_then(J::str).unwrap_or("");
                 match ev {
                     "started" => {
+                        *started_count.entry(name.to_string()).or_default() += 1;
                         *pending.entry(name.to_string()).or_default() += 1;
                         got.push(format!("started|{}", canon(name)));
                     }
@@ -379,6 +389,11 @@ pub fn check_libtest(text: &str, facts: &[Fact], pf_steps_plus_errors: Option<us
     if !unpaired.is_empty() {
         let pathless = facts.iter().any(|f| matches!(f, Fact::Step { c, .. } | Fact::HookFailed { c, .. } if c.fpath.is_none()));
         viol.push(v(if pathless { "libtest/started-result-pairing/pathless-feature" } else { "libtest/started-result-pairing" }, format!("`started` lines without exactly one result line of the same name (or vice versa): {unpaired:?}")));
+    }
+    // "exactly one result line with the same name": a name announced twice cannot be paired at all
+    let dup: Vec<(&String, &usize)> = started_count.iter().filter(|(_, n)| **n > 1).take(3).collect();
+    if !dup.is_empty() {
+        viol.push(v("libtest/duplicate-test-name", format!("test names announced by more than one `started` line: {dup:?}")));
     }
     // suite lines
     if suite_started.len() != 1 || suite_result.len() != 1 {
@@ -601,21 +616,21 @@ pub fn parse_basic(text: &str, with_headers: bool) -> Vec<String> {
 
 pub fn expected_basic(facts: &[Fact], with_headers: bool) -> Vec<String> {
     let mut out = vec![];
-    let mut seen_f: Vec<String> = vec![];
-    let mut seen_r: Vec<(String, String)> = vec![];
+    let mut seen_f: Vec<usize> = vec![];
+    let mut seen_r: Vec<(usize, usize)> = vec![];
     let mut seen_a: Vec<(String, String, String, usize, Option<(usize, usize)>)> = vec![];
     let mut head = |c: &Ctx, out: &mut Vec<String>| {
         let r = c.rule.as_ref().map_or(String::new(), |r| r.2.clone());
-        if with_headers && !seen_f.contains(&c.fname) {
-            seen_f.push(c.fname.clone());
+        if with_headers && !seen_f.contains(&c.fid) {
+            seen_f.push(c.fid);
             out.push(format!("F|{}", c.fname));
         }
-        if with_headers && !r.is_empty() && !seen_r.contains(&(c.fname.clone(), r.clone())) {
-            seen_r.push((c.fname.clone(), r.clone()));
+        if with_headers && !r.is_empty() && !seen_r.contains(&(c.fid, c.rid)) {
+            seen_r.push((c.fid, c.rid));
             out.push(format!("R|{}|{r}", c.fname));
         }
         let retry = c.retries.filter(|r| r.0 > 0).map_or(String::new(), |r| format!("{}/{}", r.0, r.0 + r.1));
-        let a = (c.fname.clone(), r.clone(), c.sname.clone(), c.sline, c.retries);
+        let a = (format!("{}#{}", c.fname, c.fid), r.clone(), c.sname.clone(), c.sline, c.retries);
         if !seen_a.contains(&a) {
             seen_a.push(a);
             out.push(format!("S|{}|{r}|{}|{retry}", c.fname, c.sname));
@@ -773,7 +788,7 @@ pub fn check_junit(text: &str, facts: &[Fact]) -> Vec<Violation> {
     // step-level facts embedded as terminal text; attempts reported as `skipped` carry none (D7 if they had steps)
     let attempt_status: BTreeMap<(String, String, usize, Option<(usize, usize)>), &str> = facts
         .iter()
-        .filter_map(|f| if let Fact::Attempt { c, status, .. } = f { Some(((c.fname.clone(), c.sname.clone(), c.sline, c.retries), *status)) } else { None })
+        .filter_map(|f| if let Fact::Attempt { c, status, .. } = f { Some(((format!("{}#{}", c.fname, c.fid), c.sname.clone(), c.sline, c.retries), *status)) } else { None })
         .collect();
     let mut dropped_by_skipped = 0usize;
     for s in expected_basic(facts, false) {
